@@ -96,8 +96,38 @@ def worker(args, scratch):
                 w.rules(ep, doc)
             for n in range(args["requests"]):
                 vid = "c03-%d-%d-%d" % (args["shard"], pol, n)
-                kind = r.choice(["ne-ws", "ne-hga", "self", "self", "ctl-root-ws", "ctl-imds"])
+                kind = r.choice(["ne-ws", "ne-hga", "self", "self", "ctl-root-ws", "ctl-imds", "ne-stale"])
                 who = r.choice(callers)
+                if kind == "ne-stale":
+                    # an elevated caller used source port P for a WireServer/HostGAPlugin connection; afterwards a non-elevated process binds P and
+                    # connects straight to the listener (no kernel record for it): whatever the first connection left behind, nothing of the
+                    # second one may reach the host
+                    dest = r.choice(["wireserver", "hostga"])
+                    first = w.open(dest, root)
+                    port = first.src_port
+                    first.send(rawhttp.build_request("GET", "/stale/first", [("x-vf-id", "c03-stale-first-%d-%d-%d" % (args["shard"], pol, n))]))
+                    try:
+                        first.read_response()
+                    except Exception:  # noqa
+                        pass
+                    first.close(abort=True)
+                    status, relayed = None, False
+                    try:
+                        second = w.open(record=False, src_port=port)
+                        second.send(rawhttp.build_request("GET", "/stale/second", [("x-vf-id", vid)]))
+                        status = second.read_response().status
+                        second.close()
+                    except OSError:
+                        cnt["stale_port_reuse_bind_failed"] = cnt.get("stale_port_reuse_bind_failed", 0) + 1
+                        continue
+                    except Exception as e:  # noqa
+                        status = "error:%r" % (e,)
+                    res["evaluations"] += 1
+                    cnt["e2e_ne-stale"] = cnt.get("e2e_ne-stale", 0) + 1
+                    if w.upstream(vid) or any(m.raw_contains(vid.encode()) for m in w.mocks.values()):
+                        res["violations"].append(["e2e-ne-stale-relayed", {"dest": dest, "port": port, "status": status, "history": "elevated connection from port P, then an unattributed connection from port P"}])
+                    res["nontrivial"].append(common.sha(["ne-stale", dest, pol, args["shard"]]))
+                    continue
                 method = r.choice(gen_http.METHODS)
                 target = gen_rbac.gen_url(r)
                 if kind == "ne-ws": dest, ident = "wireserver", who
